@@ -39,6 +39,9 @@ def fn_props(f):
     for c in f.ensures:
         if c.props:
             ps.update(c.props)
+    for c in getattr(f, "claims", None) or []:
+        if len(c) > 4 and c[4]:
+            ps.update(c[4].split(","))
     return ps
 
 
@@ -105,17 +108,21 @@ def reach_for(prop, units):
     seed = [k for k, lst in fns.items() if any(prop in fn_props(x) for _, x in lst)]
     seen = set(seed)
     todo = list(seed)
+    called = set()  # reached through a call edge from (a callee of) a function of this property, whether or not tagged itself
     while todo:
         k = todo.pop()
         for k2 in calls.get(k, ()):
+            if k2 != k:
+                called.add(k2)
             if k2 not in seen:
                 seen.add(k2)
                 todo.append(k2)
     out = {}
-    for k in seen:
+    for k in called:
         for n, x in fns[k]:
-            if prop not in fn_props(x):
-                out.setdefault(n, set()).add(x.qname())
+            # a function that is tagged AND called by another function of the property counts with all its clauses too: its own tag may
+            # only be there to carry one clause, while the callers rely on its whole contract
+            out.setdefault(n, set()).add(x.qname())
     _REACH_CACHE[prop] = out
     return out
 
